@@ -500,9 +500,13 @@ class sptensor:
         dims, _ = tt_dimscheck(self.ndims, dims=dims)
         remdims = np.setdiff1d(np.arange(0, self.ndims), dims)
 
+        # Reduce the values as real numbers: integer, boolean or single precision
+        # storage must not wrap around or saturate in the sums
+        vals = as_float_if_needed(self.vals)
+
         # Check for the case where we accumulate over *all* dimensions
         if remdims.size == 0:
-            result = function_handle(self.vals.reshape(-1))
+            result = function_handle(vals.reshape(-1))
             if isinstance(result, np.generic):
                 result = result.item()
             return result
@@ -515,7 +519,7 @@ class sptensor:
             if self.subs.size > 0:
                 return accumarray(
                     self.subs[:, remdims].transpose()[0],
-                    self.vals.transpose()[0],
+                    vals.transpose()[0],
                     size=newsize[0],
                     func=function_handle,
                 )
@@ -524,7 +528,7 @@ class sptensor:
         # Create Result
         if self.subs.size > 0:
             return ttb.sptensor.from_aggregator(
-                self.subs[:, remdims], self.vals, tuple(newsize), function_handle
+                self.subs[:, remdims], vals, tuple(newsize), function_handle
             )
         return ttb.sptensor(np.array([]), np.array([]), tuple(newsize), copy=False)
 
